@@ -18,7 +18,7 @@ LEVEL_NOTE = ("Trusted: virtual clock (the reference run is reproducible, so 'af
               "encoding used by the recovery-budget model (shared with C08).")
 DESIGN_REF = "§5 C12"
 RULE = "case = (deterministic program, pause tick k); all k of each program are enumerated; distinct = hash of (program, k, state summary); non-trivial = pause state has queued or running work"
-REQUIRED_REACH = ["pause_point", "resumed_run", "result_compare", "state_compare", "retry_continuity_eval", "resumed_in_flight_retry", "fixed_point_eval", "fixed_point_with_waiter", "pause_with_collected"]
+REQUIRED_REACH = ["pause_point", "resumed_run", "result_compare", "state_compare", "retry_continuity_eval", "resumed_in_flight_retry", "fixed_point_eval", "fixed_point_with_waiter", "pause_with_collected", "queue_entry_roundtrip_eval", "queued_with_recovery_budget", "queued_with_retry_info"]
 ASSUMPTIONS = ["workflows are deterministic and idempotent under re-execution by construction (no ctx.send_event, idempotent state writes)"]
 EXHAUSTIVE = False
 
@@ -33,7 +33,7 @@ def gen_case(seed):
     from vf import gen
 
     rnd = random.Random(seed)
-    spec = gen.gen_det(rnd)
+    spec = gen.gen_detq(rnd) if rnd.random() < 0.4 else gen.gen_det(rnd)
     spec["sched_seed"] = seed
     return {"seed": seed, "family": "det", "spec": spec}
 
@@ -72,6 +72,22 @@ def check_pause(case, k, snap, ref, acc):
         n1, n2 = oracles.norm_state(st1), oracles.norm_state(st2)
         if any(w["waiters"] for w in n1["workers"].values()):
             acc.hit("fixed_point_with_waiter")
+        # every queued entry of the live snapshot keeps its retry / recovery bookkeeping through one round trip
+        for sname, w in snap["workers"].items():
+            q0 = w.get("queue") or []
+            q1 = (d2["workers"].get(sname) or {}).get("queue") or []
+            for i, e0 in enumerate(q0):
+                acc.hit("queue_entry_roundtrip_eval")
+                if e0.get("recovery_counts"):
+                    acc.hit("queued_with_recovery_budget")
+                if (e0.get("attempts") or 0) > 0:
+                    acc.hit("queued_with_retry_info")
+                e1 = q1[i] if i < len(q1) else None
+                keys = ("event", "attempts", "first_attempt_at", "last_exception", "last_failed_at", "recovery_counts")
+                if e1 is None or any((e0.get(kk) or None) != (e1.get(kk) or None) for kk in keys):
+                    bad = [kk for kk in keys if e1 is None or (e0.get(kk) or None) != (e1.get(kk) or None)]
+                    acc.violation({"mech": "queue_entry_changed_by_roundtrip", "fields": sorted(bad)[:3]},
+                                  f"pause {k}: queued entry {i} of step {sname} changes through from_dict/to_dict in {bad}: { {kk: e0.get(kk) for kk in bad} } -> { e1 and {kk: e1.get(kk) for kk in bad} }", wit)
         if d2 != d3 or n1 != n2:
             acc.violation({"mech": "serialized_form_not_a_fixed_point"},
                           f"deserialize / re-serialize / deserialize at pause {k} changes the run state: {oracles.diff_state(n1, n2)[:2] or _first_diff(d2, d3)}", wit)
